@@ -3387,4 +3387,785 @@ theorem noFragmentCycles_iff (D : Document) :
     · exact Or.inl ((mem_dedup _ n).1 h1)
     · exact Or.inr ⟨a, (mem_dedup _ a).1 ha, har⟩
 
+/-- See `model_variable_usages_eq_spec` in Props.lean. -/
+theorem body_usages_spec {S : Schema} {D : Document} (h : WellScoped S D)
+    (hw : Schema.wfDefaults S = true) {d : Definition} (hd : d ∈ D) (vars : List VarDef) :
+    let a := varsDirectives S vars (Model.defDirs d) ++ varsSet S vars (Model.defScope S d) (Model.defSel d)
+    primaryFree a.errs =
+        (bodyUsages S d).all (fun u => Spec.usageDefinedIn vars u && Spec.usageAllowedIn S vars u) ∧
+      a.encountered = (bodyUsages S d).map (·.name) ∧
+      a.spreads = Spec.spreadsInSet (Model.defSel d) := by
+  intro a
+  obtain ⟨e, hocc⟩ := def_occs h hd
+  obtain ⟨d1, d2, d3⟩ := varsDirectives_spec S hw vars (Model.defDirs d)
+  obtain ⟨f1, f2, f3⟩ := vars_set_flat S vars (Model.defScope S d) (Model.defSel d)
+  rw [e] at f1 f2 f3
+  have d1' : (varsDirectives S vars (Model.defDirs d)).errs =
+      (Spec.usagesDirs S (Spec.defDirs d)).flatMap (usageErrs S vars) := by rw [← defDirs_eq]; exact d1
+  have d2' : (varsDirectives S vars (Model.defDirs d)).encountered =
+      (Spec.usagesDirs S (Spec.defDirs d)).map (·.name) := by rw [← defDirs_eq]; exact d2
+  have g1 : (Spec.occDef S d).flatMap (fun o => (varsOcc S vars o).errs) =
+      ((Spec.occDef S d).flatMap (Spec.usagesOcc S)).flatMap (usageErrs S vars) := by
+    rw [List.flatMap_assoc]
+    exact flatMap_congr_mem _ _ _ (fun o ho => (varsOcc_spec h.wf hw vars (hocc o ho).1 (hocc o ho).2).1)
+  have g2 : (Spec.occDef S d).flatMap (fun o => (varsOcc S vars o).encountered) =
+      ((Spec.occDef S d).flatMap (Spec.usagesOcc S)).map (·.name) := by
+    rw [List.map_flatMap]
+    exact flatMap_congr_mem _ _ _ (fun o ho => (varsOcc_spec h.wf hw vars (hocc o ho).1 (hocc o ho).2).2.1)
+  have g3 : (Spec.occDef S d).flatMap (fun o => (varsOcc S vars o).spreads) = Spec.spreadsInSet (Model.defSel d) := by
+    rw [spreadsInSet_eq, spreadNames_set_flat S (specDefScope S d), ← occDef_eq, ← filterMap_toList]
+    exact flatMap_congr_mem _ _ _ (fun o ho => (varsOcc_spec h.wf hw vars (hocc o ho).1 (hocc o ho).2).2.2)
+  refine ⟨?_, ?_, ?_⟩
+  · show primaryFree (a.errs) = _
+    simp only [a, VarAcc.errs_append, d1', f1, g1, bodyUsages, ← List.flatMap_append]
+    rw [primaryFree_flatMap]
+    apply all_congr_mem
+    intro u _
+    exact usageErrs_ok S vars u
+  · simp only [a, VarAcc.encountered_append, d2', f2, g2, bodyUsages, List.map_append]
+  · simp only [a, VarAcc.spreads_append, d3, f3, g3, List.nil_append]
+
+/-! ## The worklist of the variable pass (validate_variables.go:65-73) -/
+
+theorem varsArgs_spreads (S : Schema) (vars : List VarDef) (ctxOf : String → VCtx) (args : List Argument) :
+    (varsArgs S vars ctxOf args).spreads = [] := by
+  induction args with
+  | nil => rfl
+  | cons a rest ih => simp [varsArgs, varsValue_spreads, ih]
+
+theorem varsDirectives_spreads (S : Schema) (vars : List VarDef) (dirs : List Directive) :
+    (varsDirectives S vars dirs).spreads = [] := by
+  induction dirs with
+  | nil => rfl
+  | cons d rest ih => simp [varsDirectives, varsArgs_spreads, ih]
+
+mutual
+theorem varsSel_spreads (S : Schema) (vars : List VarDef) : ∀ (scope : Option String) (sel : Selection),
+    (varsSel S vars scope sel).spreads = Model.spreadNamesSel sel
+  | scope, .field al n np args dirs none => by
+    simp [varsSel, Model.spreadNamesSel, varsArgs_spreads, varsDirectives_spreads]
+  | scope, .field al n np args dirs (some ss) => by
+    simp [varsSel, Model.spreadNamesSel, varsArgs_spreads, varsDirectives_spreads, varsSet_spreads S vars _ ss]
+  | scope, .spread n np dirs p => by
+    simp [varsSel, Model.spreadNamesSel, varsDirectives_spreads]
+  | scope, .inline tc dirs ss p => by
+    simp [varsSel, Model.spreadNamesSel, varsDirectives_spreads, varsSet_spreads S vars _ ss]
+theorem varsSet_spreads (S : Schema) (vars : List VarDef) : ∀ (scope : Option String) (ss : SelSet),
+    (varsSet S vars scope ss).spreads = Model.spreadNamesSet ss
+  | scope, .mk sels p => by simp [varsSet, Model.spreadNamesSet, varsSels_spreads S vars scope sels]
+theorem varsSels_spreads (S : Schema) (vars : List VarDef) : ∀ (scope : Option String) (sels : List Selection),
+    (varsSels S vars scope sels).spreads = Model.spreadNamesSels sels
+  | scope, [] => by simp [varsSels, Model.spreadNamesSels]
+  | scope, s :: rest => by
+    simp [varsSels, Model.spreadNamesSels, varsSel_spreads S vars scope s, varsSels_spreads S vars scope rest]
+end
+
+/-- What `validate(def)` accumulates for the fragment named `n` (nothing when it is undefined). -/
+def contrib (S : Schema) (D : Document) (vars : List VarDef) (n : String) : VarAcc :=
+  match Model.fragLast D n with
+  | none => {}
+  | some f => varsDirectives S vars f.dirs ++ varsSet S vars (Model.namedType S f.tc) f.sel
+
+/-- The spreads written in the fragment named `n`. -/
+def wdeps (D : Document) (n : String) : List String :=
+  match Model.fragLast D n with
+  | none => []
+  | some f => Model.spreadNamesSet f.sel
+
+theorem contrib_spreads (S : Schema) (D : Document) (vars : List VarDef) (n : String) :
+    (contrib S D vars n).spreads = wdeps D n := by
+  unfold contrib wdeps
+  cases Model.fragLast D n with
+  | none => rfl
+  | some f => simp [varsDirectives_spreads, varsSet_spreads]
+
+/-- Invariant of the worklist. -/
+structure WInv (S : Schema) (D : Document) (vars : List VarDef) (start : List String) (acc0 : VarAcc)
+    (todo validated : List String) (acc : VarAcc) : Prop where
+  errs : primaryFree acc.errs = (primaryFree acc0.errs && validated.all (fun n => primaryFree (contrib S D vars n).errs))
+  enc : ∀ x, x ∈ acc.encountered ↔ (x ∈ acc0.encountered ∨ ∃ n ∈ validated, x ∈ (contrib S D vars n).encountered)
+  closed : ∀ n ∈ validated, ∀ x ∈ wdeps D n, x ∈ validated ∨ x ∈ todo
+  sound : ∀ x, (x ∈ todo ∨ x ∈ validated) → (x ∈ start ∨ ∃ a ∈ start, Reach (wdeps D) a x)
+  startIn : ∀ x ∈ start, x ∈ validated ∨ x ∈ todo
+
+/-- If the worklist comes back (within its fuel), it has validated exactly the fragments reachable
+    from the start, each contributing its errors and encountered names. -/
+theorem varsFragments_spec (S : Schema) (D : Document) (vars : List VarDef) (start : List String) (acc0 : VarAcc) :
+    ∀ (fuel : Nat) (todo validated : List String) (acc acc' : VarAcc),
+      WInv S D vars start acc0 todo validated acc →
+      varsFragments S D vars fuel todo validated acc = some acc' →
+      ∃ validated', WInv S D vars start acc0 [] validated' acc' := by
+  intro fuel
+  induction fuel with
+  | zero => intro todo validated acc acc' _ h; simp [varsFragments] at h
+  | succ fuel ih =>
+    intro todo validated acc acc' inv h
+    cases todo with
+    | nil =>
+      simp only [varsFragments, Option.some.injEq] at h
+      subst h
+      exact ⟨validated, inv⟩
+    | cons n rest =>
+      unfold varsFragments at h
+      by_cases hv : n ∈ validated
+      · simp only [List.contains_eq_mem, hv, decide_true, if_true] at h
+        apply ih rest validated acc acc' _ h
+        refine ⟨inv.errs, inv.enc, ?_, ?_, ?_⟩
+        · intro m hm x hx
+          rcases inv.closed m hm x hx with h1 | h1
+          · exact Or.inl h1
+          · simp only [List.mem_cons] at h1
+            rcases h1 with rfl | h1
+            · exact Or.inl hv
+            · exact Or.inr h1
+        · intro x hx
+          apply inv.sound x
+          rcases hx with hx | hx
+          · exact Or.inl (List.mem_cons_of_mem _ hx)
+          · exact Or.inr hx
+        · intro x hx
+          rcases inv.startIn x hx with h1 | h1
+          · exact Or.inl h1
+          · simp only [List.mem_cons] at h1
+            rcases h1 with rfl | h1
+            · exact Or.inl hv
+            · exact Or.inr h1
+      · simp only [List.contains_eq_mem, hv, decide_false, Bool.false_eq_true, if_false] at h
+        have hsn : n ∈ start ∨ ∃ a ∈ start, Reach (wdeps D) a n := inv.sound n (Or.inl (by simp))
+        cases hf : Model.fragLast D n with
+        | none =>
+          simp only [hf] at h
+          have hc : contrib S D vars n = {} := by simp [contrib, hf]
+          have hd : wdeps D n = [] := by simp [wdeps, hf]
+          apply ih rest (n :: validated) acc acc' _ h
+          refine ⟨?_, ?_, ?_, ?_, ?_⟩
+          · rw [inv.errs]; simp [hc, primaryFree]
+          · intro x
+            rw [inv.enc x]
+            simp [hc]
+          · intro m hm x hx
+            simp only [List.mem_cons] at hm
+            rcases hm with rfl | hm
+            · simp [hd] at hx
+            · rcases inv.closed m hm x hx with h1 | h1
+              · exact Or.inl (List.mem_cons_of_mem _ h1)
+              · simp only [List.mem_cons] at h1
+                rcases h1 with rfl | h1
+                · exact Or.inl (by simp)
+                · exact Or.inr h1
+          · intro x hx
+            rcases hx with hx | hx
+            · exact inv.sound x (Or.inl (List.mem_cons_of_mem _ hx))
+            · simp only [List.mem_cons] at hx
+              rcases hx with rfl | hx
+              · exact hsn
+              · exact inv.sound x (Or.inr hx)
+          · intro x hx
+            rcases inv.startIn x hx with h1 | h1
+            · exact Or.inl (List.mem_cons_of_mem _ h1)
+            · simp only [List.mem_cons] at h1
+              rcases h1 with rfl | h1
+              · exact Or.inl (by simp)
+              · exact Or.inr h1
+        | some f =>
+          simp only [hf] at h
+          have hc : contrib S D vars n = varsDirectives S vars f.dirs ++ varsSet S vars (Model.namedType S f.tc) f.sel := by
+            simp [contrib, hf]
+          have hd : wdeps D n = (contrib S D vars n).spreads := (contrib_spreads S D vars n).symm
+          rw [← hc] at h
+          apply ih _ (n :: validated) _ acc' _ h
+          refine ⟨?_, ?_, ?_, ?_, ?_⟩
+          · simp only [VarAcc.errs_append, primaryFree_append, inv.errs, List.all_cons]
+            cases primaryFree acc0.errs <;> cases primaryFree (contrib S D vars n).errs <;> simp
+          · intro x
+            simp only [VarAcc.encountered_append, List.mem_append, inv.enc x, List.mem_cons, exists_eq_or_imp]
+            constructor
+            · rintro ((h1 | h1) | h1)
+              · exact Or.inl h1
+              · exact Or.inr (Or.inr h1)
+              · exact Or.inr (Or.inl h1)
+            · rintro (h1 | h1 | h1)
+              · exact Or.inl (Or.inl h1)
+              · exact Or.inr h1
+              · exact Or.inl (Or.inr h1)
+          · intro m hm x hx
+            simp only [List.mem_cons] at hm
+            rcases hm with rfl | hm
+            · rw [hd] at hx
+              exact Or.inr (List.mem_append_right _ hx)
+            · rcases inv.closed m hm x hx with h1 | h1
+              · exact Or.inl (List.mem_cons_of_mem _ h1)
+              · simp only [List.mem_cons] at h1
+                rcases h1 with rfl | h1
+                · exact Or.inl (by simp)
+                · exact Or.inr (List.mem_append_left _ h1)
+          · intro x hx
+            rcases hx with hx | hx
+            · simp only [List.mem_append] at hx
+              rcases hx with hx | hx
+              · exact inv.sound x (Or.inl (List.mem_cons_of_mem _ hx))
+              · -- a spread of the fragment just validated
+                rw [← hd] at hx
+                rcases hsn with hs | ⟨a, ha, hr⟩
+                · exact Or.inr ⟨n, hs, .step hx⟩
+                · exact Or.inr ⟨a, ha, hr.tail hx⟩
+            · simp only [List.mem_cons] at hx
+              rcases hx with rfl | hx
+              · exact hsn
+              · exact inv.sound x (Or.inr hx)
+          · intro x hx
+            rcases inv.startIn x hx with h1 | h1
+            · exact Or.inl (List.mem_cons_of_mem _ h1)
+            · simp only [List.mem_cons] at h1
+              rcases h1 with rfl | h1
+              · exact Or.inl (by simp)
+              · exact Or.inr (List.mem_append_left _ h1)
+
+/-- At the end the validated set is the reachable set. -/
+theorem WInv.final {S : Schema} {D : Document} {vars : List VarDef} {start : List String} {acc0 acc' : VarAcc}
+    {validated : List String} (inv : WInv S D vars start acc0 [] validated acc') (n : String) :
+    n ∈ validated ↔ (n ∈ start ∨ ∃ a ∈ start, Reach (wdeps D) a n) := by
+  constructor
+  · intro h; exact inv.sound n (Or.inr h)
+  · have hcl : Closed (wdeps D) validated := by
+      intro a ha x hx
+      rcases inv.closed a ha x hx with h | h
+      · exact h
+      · simp at h
+    have hst : ∀ x ∈ start, x ∈ validated := by
+      intro x hx
+      rcases inv.startIn x hx with h | h
+      · exact h
+      · simp at h
+    rintro (h | ⟨a, ha, hr⟩)
+    · exact hst n h
+    · exact closed_reach (wdeps D) hcl (hst a ha) hr
+
+
+/-! ### the fragments in scope: model's `wdeps` against the specification's `fragDeps` -/
+
+theorem wdeps_spec {D : Document} (hu : Spec.fragmentNamesUnique D = true) (a x : String) :
+    x ∈ wdeps D a ↔ x ∈ Spec.fragDeps D a := by
+  rw [← directDeps_spec hu]
+  unfold wdeps Model.directDeps
+  cases Model.fragLast D a with
+  | none => simp
+  | some f =>
+    simp only
+    exact ((mem_dedup _ x).symm.trans (by simp [Model.dedup, Spec.dedup]))
+
+theorem all_of_mem_iff {α : Type} (l1 l2 : List α) (p : α → Bool) (h : ∀ x, x ∈ l1 ↔ x ∈ l2) :
+    l1.all p = l2.all p := by
+  rw [Bool.eq_iff_iff]
+  simp only [List.all_eq_true]
+  constructor
+  · intro h1 x hx; exact h1 x ((h x).2 hx)
+  · intro h1 x hx; exact h1 x ((h x).1 hx)
+
+/-- The definition of a fragment found by `fragLast`. -/
+theorem fragLast_def {D : Document} {n : String} {f : FragInfo} (h : Model.fragLast D n = some f) :
+    Definition.frag f.name f.npos f.tc f.tcpos f.dirs f.sel f.pos ∈ D ∧ f.name = n := by
+  unfold Model.fragLast at h
+  have hm := List.mem_of_find?_eq_some h
+  have hp := List.find?_some h
+  simp only [List.mem_reverse] at hm
+  unfold Model.fragsOf at hm
+  simp only [List.mem_filterMap] at hm
+  obtain ⟨d, hd, hdf⟩ := hm
+  cases d with
+  | op => simp at hdf
+  | frag n' np tc tcp dirs sel p =>
+    simp only [Option.some.injEq] at hdf
+    subst hdf
+    exact ⟨hd, by simpa using hp⟩
+
+/-- With unique names the specification's usages of "the fragments named n" are the body usages
+    of the one definition (none when there is no definition). -/
+theorem fragUsages_spec {S : Schema} {D : Document} (hu : Spec.fragmentNamesUnique D = true) (n : String) :
+    Spec.fragUsages S D n =
+      (match Model.fragLast D n with
+       | none => []
+       | some f => bodyUsages S (Definition.frag f.name f.npos f.tc f.tcpos f.dirs f.sel f.pos)) := by
+  rw [fragLast_eq_first hu]
+  unfold Spec.fragmentNamesUnique at hu
+  rw [← fragsOf_names] at hu
+  unfold Spec.fragUsages Model.fragFirst Model.fragsOf at *
+  induction D with
+  | nil => rfl
+  | cons d rest ih =>
+    cases d with
+    | op kind name vars dirs sel =>
+      simp only [List.flatMap_cons, List.filterMap_cons, Spec.fragUsagesOf, List.nil_append] at hu ⊢
+      exact ih hu
+    | frag m np tc tcp dirs sel p =>
+      simp only [List.filterMap_cons, List.map_cons, nodup_cons, Bool.and_eq_true, Bool.not_eq_true',
+        List.contains_eq_mem, decide_eq_false_iff_not] at hu
+      simp only [List.flatMap_cons, List.filterMap_cons, List.find?_cons, Spec.fragUsagesOf]
+      by_cases hm : m = n
+      · subst hm
+        simp only [if_true, decide_true]
+        -- no later definition has this name
+        have hnone : rest.flatMap (Spec.fragUsagesOf S m) = [] := by
+          rw [List.flatMap_eq_nil_iff]
+          intro d hd
+          cases d with
+          | op => rfl
+          | frag m' np' tc' tcp' dirs' sel' p' =>
+            have : m' ≠ m := by
+              intro he
+              apply hu.1
+              simp only [List.mem_map, List.mem_filterMap]
+              exact ⟨{ name := m', npos := np', tc := tc', tcpos := tcp', dirs := dirs', sel := sel', pos := p' },
+                ⟨_, hd, rfl⟩, he⟩
+            simp [Spec.fragUsagesOf, this]
+        rw [hnone]
+        simp [bodyUsages, Spec.defDirs, Spec.occDef]
+      · simp only [hm, if_false, decide_false, List.nil_append]
+        exact ih hu.2
+
+/-- `validate(def)` for a fragment found by `fragLast` is the body accumulation of its definition. -/
+theorem contrib_body {S : Schema} {D : Document} (hws : WellScoped S D) (hw : Schema.wfDefaults S = true)
+    (hu : Spec.fragmentNamesUnique D = true) (vars : List VarDef) (n : String) :
+    primaryFree (contrib S D vars n).errs =
+        (Spec.fragUsages S D n).all (fun u => Spec.usageDefinedIn vars u && Spec.usageAllowedIn S vars u) ∧
+      (contrib S D vars n).encountered = (Spec.fragUsages S D n).map (·.name) := by
+  rw [fragUsages_spec hu]
+  unfold contrib
+  cases hf : Model.fragLast D n with
+  | none => simp [primaryFree]
+  | some f =>
+    obtain ⟨hd, _⟩ := fragLast_def hf
+    have := body_usages_spec hws hw hd vars
+    simp only [Model.defDirs, Model.defScope, Model.defSel] at this
+    exact ⟨this.1, this.2.1⟩
+
+
+/-! ### one operation -/
+
+theorem mem_spreads_allSpreads {D : Document} {d : Definition} (hd : d ∈ D) {x : String}
+    (hx : x ∈ Spec.spreadsInSet (Model.defSel d)) : x ∈ Spec.allSpreads D := by
+  unfold Spec.allSpreads
+  simp only [List.mem_flatMap]
+  exact ⟨d, hd, by rw [defSelOf_eq]; exact hx⟩
+
+theorem fragDeps_in_U (D : Document) (a x : String) (hx : x ∈ Spec.fragDeps D a) : x ∈ Spec.allSpreads D := by
+  unfold Spec.fragDeps at hx
+  simp only [List.mem_flatMap] at hx
+  obtain ⟨t, ht, hxt⟩ := hx
+  rw [← fragsOf_map] at ht
+  simp only [List.mem_map] at ht
+  obtain ⟨f, hf, rfl⟩ := ht
+  by_cases hn : f.name = a
+  · simp only [hn, if_true, spreadsInSet_eq] at hxt
+    exact mem_allSpreads_of_frag hf hxt
+  · simp [hn] at hxt
+
+/-- The specification's fragments in scope are the start spreads and what they reach. -/
+theorem mem_reachableFrom (D : Document) (start : List String) (hs : ∀ x ∈ start, x ∈ Spec.allSpreads D) (n : String) :
+    n ∈ Spec.reachableFrom D start ↔ (n ∈ start ∨ ∃ a ∈ start, Reach (Spec.fragDeps D) a n) := by
+  unfold Spec.reachableFrom
+  rw [reachable_eq_roundsOf, mem_roundsOf_iff (Spec.fragDeps D) (Spec.allSpreads D) (fragDeps_in_U D) _ _
+    (nodup_dedup _) (fun x hx => hs x ((mem_dedup _ x).1 hx)) (Nat.le_refl _)]
+  simp only [mem_dedup]
+
+theorem unusedVariableErrors_nil (enc : List String) (vars : List VarDef) :
+    unusedVariableErrors enc vars = [] ↔ ∀ vd ∈ vars, vd.name ∈ enc := by
+  unfold unusedVariableErrors
+  simp only [List.flatMap_eq_nil_iff]
+  constructor
+  · intro h vd hvd
+    have := h vd hvd
+    by_cases hc : vd.name ∈ enc
+    · exact hc
+    · simp [hc] at this
+  · intro h vd hvd
+    simp [h vd hvd]
+
+/-- What the variable pass computes for one operation whose worklist came back within its fuel,
+    in the specification's terms: `acc.errs` has no primary error iff every usage in scope of the
+    operation is declared and allowed; `acc.encountered` holds exactly the names of those usages. -/
+theorem operation_usages_spec {S : Schema} {D : Document} (hws : WellScoped S D) (hw : Schema.wfDefaults S = true)
+    (hu : Spec.fragmentNamesUnique D = true) {kind : Option (OpKind × Pos)} {name : Option (String × Pos)}
+    {vars : List VarDef} {dirs : List Directive} {sel : SelSet}
+    (hd : Definition.op kind name vars dirs sel ∈ D) (fuel : Nat) (acc' : VarAcc)
+    (hrun : let a := varsDirectives S vars dirs ++ varsSet S vars (Model.opScope S kind) sel
+            varsFragments S D vars fuel a.spreads [] { a with spreads := [] } = some acc') :
+    primaryFree acc'.errs =
+        (Spec.opUsages S D kind dirs sel).all (fun u => Spec.usageDefinedIn vars u && Spec.usageAllowedIn S vars u) ∧
+      (∀ x, x ∈ acc'.encountered ↔ ∃ u ∈ Spec.opUsages S D kind dirs sel, u.name = x) := by
+  have hbody := body_usages_spec hws hw hd vars
+  simp only [Model.defDirs, Model.defScope, Model.defSel] at hbody
+  obtain ⟨b1, b2, b3⟩ := hbody
+  -- run the worklist from its initial state
+  let a := varsDirectives S vars dirs ++ varsSet S vars (Model.opScope S kind) sel
+  have hinit : WInv S D vars a.spreads { a with spreads := [] } a.spreads [] { a with spreads := [] } :=
+    ⟨by simp, by simp, by simp, by intro x hx; exact Or.inl (by simpa using hx), by intro x hx; exact Or.inr hx⟩
+  obtain ⟨validated, hfin⟩ := varsFragments_spec S D vars a.spreads { a with spreads := [] } fuel a.spreads [] _ acc' hinit hrun
+  have hval := hfin.final
+  -- the validated fragments are the specification's fragments in scope
+  have hstart : a.spreads = Spec.spreadsInSet sel := b3
+  have hsU : ∀ x ∈ Spec.spreadsInSet sel, x ∈ Spec.allSpreads D := fun x hx => mem_spreads_allSpreads hd hx
+  have hset : ∀ n, n ∈ validated ↔ n ∈ Spec.reachableFrom D (Spec.spreadsInSet sel) := by
+    intro n
+    rw [hval n, mem_reachableFrom D _ hsU n, hstart]
+    constructor
+    · rintro (h | ⟨x, hx, hr⟩)
+      · exact Or.inl h
+      · exact Or.inr ⟨x, hx, hr.mono (fun p q hq => (wdeps_spec hu p q).1 hq)⟩
+    · rintro (h | ⟨x, hx, hr⟩)
+      · exact Or.inl h
+      · exact Or.inr ⟨x, hx, hr.mono (fun p q hq => (wdeps_spec hu p q).2 hq)⟩
+  have hops : Spec.opUsages S D kind dirs sel =
+      bodyUsages S (Definition.op kind name vars dirs sel) ++
+        (Spec.reachableFrom D (Spec.spreadsInSet sel)).flatMap (Spec.fragUsages S D) := by
+    simp [Spec.opUsages, bodyUsages, Spec.defDirs, Spec.occDef]
+  refine ⟨?_, ?_⟩
+  · rw [hfin.errs, hops, List.all_append, all_flatMap]
+    congr 1
+    rw [all_of_mem_iff validated _ _ hset]
+    apply all_congr_mem
+    intro n _
+    exact (contrib_body hws hw hu vars n).1
+  · intro x
+    rw [hfin.enc x, hops]
+    simp only [List.mem_append, List.mem_flatMap]
+    have hb2 : (({ a with spreads := [] } : VarAcc)).encountered = a.encountered := rfl
+    rw [hb2]
+    constructor
+    · rintro (h | ⟨n, hn, hx⟩)
+      · have : x ∈ (bodyUsages S (Definition.op kind name vars dirs sel)).map (·.name) := by rw [← b2]; exact h
+        simp only [List.mem_map] at this
+        obtain ⟨u, hu', hux⟩ := this
+        exact ⟨u, Or.inl hu', hux⟩
+      · rw [(contrib_body hws hw hu vars n).2] at hx
+        simp only [List.mem_map] at hx
+        obtain ⟨u, hu', hux⟩ := hx
+        exact ⟨u, Or.inr ⟨n, (hset n).1 hn, hu'⟩, hux⟩
+    · rintro ⟨u, (hu' | ⟨n, hn, hu'⟩), hux⟩
+      · left
+        show x ∈ a.encountered
+        rw [b2]
+        exact List.mem_map.2 ⟨u, hu', hux⟩
+      · right
+        refine ⟨n, (hset n).2 hn, ?_⟩
+        rw [(contrib_body hws hw hu vars n).2]
+        exact List.mem_map.2 ⟨u, hu', hux⟩
+
+
+theorem variableTypeErrors_allPrimary (S : Schema) (vd : VarDef) : AllPrimary (variableTypeErrors S vd) := by
+  unfold variableTypeErrors
+  cases Model.schemaType S vd.type with
+  | none => exact allPrimary_single _ _
+  | some t =>
+    simp only
+    split
+    · exact allPrimary_nil
+    · exact allPrimary_single _ _
+
+theorem variableDefErrors_allPrimary (S : Schema) (seen : List String) (vars : List VarDef) :
+    AllPrimary (variableDefErrors S seen vars) := by
+  induction vars generalizing seen with
+  | nil => exact allPrimary_nil
+  | cons vd rest ih =>
+    simp only [variableDefErrors]
+    apply allPrimary_append (allPrimary_append _ (variableTypeErrors_allPrimary S vd)) (ih _)
+    split
+    · exact allPrimary_single _ _
+    · exact allPrimary_nil
+
+theorem unusedVariableErrors_allPrimary (enc : List String) (vars : List VarDef) :
+    AllPrimary (unusedVariableErrors enc vars) := by
+  unfold unusedVariableErrors
+  apply allPrimary_flatMap
+  intro vd _
+  split
+  · exact allPrimary_nil
+  · exact allPrimary_single _ _
+
+/-- The five variable rules for one definition. -/
+def variableRulesAt (S : Schema) (D : Document) (d : Definition) : Bool :=
+  Spec.nodup ((Spec.varDefsOf d).map (·.name)) && (Spec.varDefsOf d).all (Spec.variableTypeOk S) &&
+  (Spec.defUsages S D d).all (Spec.usageDefinedIn (Spec.varDefsOf d)) &&
+  (Spec.varDefsOf d).all (fun vd => (Spec.defUsages S D d).any fun u => u.name = vd.name) &&
+  (Spec.defUsages S D d).all (Spec.usageAllowedIn S (Spec.varDefsOf d))
+
+/-- One operation: if its worklist came back within the fuel, the errors of the variable pass for
+    it contain no primary error iff §5.8.1 – §5.8.5 hold for it. -/
+theorem operation_variables_spec {S : Schema} {D : Document} (hws : WellScoped S D) (hw : Schema.wfDefaults S = true)
+    (hu : Spec.fragmentNamesUnique D = true) {kind : Option (OpKind × Pos)} {name : Option (String × Pos)}
+    {vars : List VarDef} {dirs : List Directive} {sel : SelSet}
+    (hd : Definition.op kind name vars dirs sel ∈ D) (fuel : Nat) (errs : List Err)
+    (hrun : validateVariablesOp S D fuel kind vars dirs sel = (errs, false)) :
+    primaryFree errs = variableRulesAt S D (Definition.op kind name vars dirs sel) := by
+  unfold validateVariablesOp at hrun
+  simp only at hrun
+  cases hwl : varsFragments S D vars fuel
+      (varsDirectives S vars dirs ++ varsSet S vars (Model.opScope S kind) sel).spreads []
+      { varsDirectives S vars dirs ++ varsSet S vars (Model.opScope S kind) sel with spreads := [] } with
+  | none => rw [hwl] at hrun; simp at hrun
+  | some acc' =>
+    rw [hwl] at hrun
+    simp only [Prod.mk.injEq, and_true] at hrun
+    subst hrun
+    obtain ⟨h1, h2⟩ := operation_usages_spec hws hw hu hd fuel acc' hwl
+    rw [primaryFree_append, primaryFree_append,
+      primaryFree_of_allPrimary (variableDefErrors_allPrimary S [] vars),
+      primaryFree_of_allPrimary (unusedVariableErrors_allPrimary acc'.encountered vars), h1]
+    unfold variableRulesAt
+    simp only [Spec.varDefsOf, Spec.defUsages]
+    have e1 : (variableDefErrors S [] vars).isEmpty =
+        (Spec.nodup (vars.map (·.name)) && vars.all (Spec.variableTypeOk S)) := by
+      rw [Bool.eq_iff_iff, List.isEmpty_iff, variableDefErrors_nil]
+      simp
+    have e2 : (unusedVariableErrors acc'.encountered vars).isEmpty =
+        vars.all (fun vd => (Spec.opUsages S D kind dirs sel).any fun u => u.name = vd.name) := by
+      rw [Bool.eq_iff_iff, List.isEmpty_iff, unusedVariableErrors_nil]
+      simp only [List.all_eq_true, List.any_eq_true, decide_eq_true_eq]
+      constructor
+      · intro h vd hvd; exact (h2 vd.name).1 (h vd hvd)
+      · intro h vd hvd; exact (h2 vd.name).2 (h vd hvd)
+    rw [e1, e2, ← all_and]
+    cases Spec.nodup (vars.map (·.name)) <;> cases vars.all (Spec.variableTypeOk S) <;>
+    cases (Spec.opUsages S D kind dirs sel).all (Spec.usageDefinedIn vars) <;>
+    cases (Spec.opUsages S D kind dirs sel).all (Spec.usageAllowedIn S vars) <;>
+    cases vars.all (fun vd => (Spec.opUsages S D kind dirs sel).any fun u => u.name = vd.name) <;> rfl
+
+theorem variableRules_doc (S : Schema) (D : Document) :
+    (Spec.variablesUnique D && Spec.variablesAreInputTypes S D && Spec.variableUsesDefined S D &&
+      Spec.variablesUsed S D && Spec.variableUsagesAllowed S D) = D.all (variableRulesAt S D) := by
+  unfold Spec.variablesUnique Spec.variablesAreInputTypes Spec.variableUsesDefined Spec.variablesUsed
+    Spec.variableUsagesAllowed
+  rw [all_and, all_and, all_and, all_and]
+  rfl
+
+theorem validateVariablesDefs_spec {S : Schema} {D : Document} (hws : WellScoped S D) (hw : Schema.wfDefaults S = true)
+    (hu : Spec.fragmentNamesUnique D = true) (fuel : Nat) :
+    ∀ (ds : List Definition) (errs : List Err), (∀ d ∈ ds, d ∈ D) →
+      validateVariablesDefs S D fuel ds = (errs, false) → primaryFree errs = ds.all (variableRulesAt S D)
+  | [], errs, _, h => by
+    simp only [validateVariablesDefs, Prod.mk.injEq, and_true] at h
+    subst h; rfl
+  | .frag n np tc tcp dirs sel p :: rest, errs, hm, h => by
+    simp only [validateVariablesDefs] at h
+    rw [validateVariablesDefs_spec hws hw hu fuel rest errs (fun d hd => hm d (by simp [hd])) h]
+    simp [variableRulesAt, Spec.varDefsOf, Spec.defUsages, Spec.nodup]
+  | .op kind name vars dirs sel :: rest, errs, hm, h => by
+    simp only [validateVariablesDefs] at h
+    cases ho : validateVariablesOp S D fuel kind vars dirs sel with
+    | mk e fo =>
+      cases hr : validateVariablesDefs S D fuel rest with
+      | mk r fo' =>
+        rw [ho, hr] at h
+        simp only [Prod.mk.injEq, Bool.or_eq_false_iff] at h
+        obtain ⟨he, hfo, hfo'⟩ := h
+        subst he hfo hfo'
+        rw [primaryFree_append, List.all_cons,
+          operation_variables_spec hws hw hu (name := name) (hm _ (List.mem_cons_self ..)) fuel e ho,
+          validateVariablesDefs_spec hws hw hu fuel rest r (fun d hd => hm d (by simp [hd])) hr]
+
+/-! ## Fuel sufficiency of the worklist of the variable pass -/
+
+/-- Spreads still to be discovered: those of the defined fragments not validated yet. -/
+def pot (D : Document) (names validated : List String) : Nat :=
+  ((names.filter (fun n => !validated.contains n)).map (fun n => (wdeps D n).length)).sum
+
+theorem pot_skip (D : Document) (names validated : List String) (n : String) (hn : n ∉ names) :
+    pot D names (n :: validated) = pot D names validated := by
+  unfold pot
+  congr 2
+  apply List.filter_congr
+  intro m hm
+  have : m ≠ n := fun he => hn (he ▸ hm)
+  simp [this]
+
+theorem pot_take (D : Document) : ∀ (names validated : List String) (n : String), Spec.nodup names = true →
+    n ∈ names → n ∉ validated → pot D names (n :: validated) + (wdeps D n).length = pot D names validated
+  | [], _, _, _, h, _ => by simp at h
+  | m :: rest, validated, n, hnd, hmem, hnv => by
+    simp only [nodup_cons, Bool.and_eq_true, Bool.not_eq_true', List.contains_eq_mem, decide_eq_false_iff_not] at hnd
+    simp only [List.mem_cons] at hmem
+    unfold pot
+    simp only [List.filter_cons, List.contains_eq_mem, List.mem_cons]
+    by_cases hmn : m = n
+    · subst hmn
+      have hrest : m ∉ rest := hnd.1
+      have := pot_skip D rest validated m hrest
+      unfold pot at this
+      simp only [List.contains_eq_mem, List.mem_cons] at this
+      simp only [true_or, decide_true, Bool.not_true, Bool.false_eq_true, if_false, hnv, decide_false,
+        Bool.not_false, if_true, List.map_cons, List.sum_cons, this]
+      omega
+    · have hin : n ∈ rest := by
+        rcases hmem with h | h
+        · exact absurd h.symm hmn
+        · exact h
+      have ih := pot_take D rest validated n hnd.2 hin hnv
+      unfold pot at ih
+      simp only [List.contains_eq_mem, List.mem_cons] at ih
+      by_cases hmv : m ∈ validated
+      · simp only [hmn, hmv, or_true, decide_true, Bool.not_true, Bool.false_eq_true, if_false]
+        exact ih
+      · simp only [hmn, hmv, or_self, decide_false, Bool.not_false, if_true, List.map_cons, List.sum_cons]
+        omega
+
+theorem fragLast_none_iff (D : Document) (n : String) :
+    Model.fragLast D n = none ↔ n ∉ (Model.fragsOf D).map (·.name) := by
+  unfold Model.fragLast
+  rw [List.find?_eq_none]
+  simp only [List.mem_reverse, decide_eq_true_eq, List.mem_map, not_exists, not_and]
+
+/-- The worklist comes back when the fuel exceeds the work left. -/
+theorem varsFragments_total (S : Schema) (D : Document) (vars : List VarDef) (names : List String)
+    (hnd : Spec.nodup names = true) (hnames : ∀ n, n ∈ names ↔ n ∈ (Model.fragsOf D).map (·.name)) :
+    ∀ (fuel : Nat) (todo validated : List String) (acc : VarAcc),
+      todo.length + pot D names validated < fuel →
+      ∃ acc', varsFragments S D vars fuel todo validated acc = some acc' := by
+  intro fuel
+  induction fuel with
+  | zero => intro todo validated acc h; omega
+  | succ fuel ih =>
+    intro todo validated acc h
+    cases todo with
+    | nil => exact ⟨acc, by simp [varsFragments]⟩
+    | cons n rest =>
+      unfold varsFragments
+      simp only [List.length_cons] at h
+      by_cases hv : n ∈ validated
+      · simp only [List.contains_eq_mem, hv, decide_true, if_true]
+        exact ih rest validated acc (by omega)
+      · simp only [List.contains_eq_mem, hv, decide_false, Bool.false_eq_true, if_false]
+        cases hf : Model.fragLast D n with
+        | none =>
+          simp only
+          have hn : n ∉ names := fun hm => (fragLast_none_iff D n).1 hf ((hnames n).1 hm)
+          apply ih rest (n :: validated) acc
+          rw [pot_skip D names validated n hn]
+          omega
+        | some f =>
+          simp only
+          have hn : n ∈ names := by
+            apply (hnames n).2
+            by_cases hm : n ∈ (Model.fragsOf D).map (·.name)
+            · exact hm
+            · rw [(fragLast_none_iff D n).2 hm] at hf; simp at hf
+          have hp := pot_take D names validated n hnd hn hv
+          have hs : (varsDirectives S vars f.dirs ++ varsSet S vars (Model.namedType S f.tc) f.sel).spreads.length =
+              (wdeps D n).length := by
+            have := contrib_spreads S D vars n
+            simp only [contrib, hf] at this
+            rw [this]
+          apply ih
+          simp only [List.length_append, hs]
+          omega
+
+
+mutual
+theorem spreadNamesSel_le : ∀ (sel : Selection), (Model.spreadNamesSel sel).length ≤ Model.sizeSel sel
+  | .field _ _ _ _ _ none => by simp [Model.spreadNamesSel, Model.sizeSel]
+  | .field _ _ _ _ _ (some ss) => by
+    have := spreadNamesSet_le ss
+    simp only [Model.spreadNamesSel, Model.sizeSel]; omega
+  | .spread _ _ _ _ => by simp [Model.spreadNamesSel, Model.sizeSel]
+  | .inline _ _ ss _ => by
+    have := spreadNamesSet_le ss
+    simp only [Model.spreadNamesSel, Model.sizeSel]; omega
+theorem spreadNamesSet_le : ∀ (ss : SelSet), (Model.spreadNamesSet ss).length ≤ Model.sizeSet ss
+  | .mk sels _ => by
+    have := spreadNamesSels_le sels
+    simp only [Model.spreadNamesSet, Model.sizeSet]; omega
+theorem spreadNamesSels_le : ∀ (sels : List Selection), (Model.spreadNamesSels sels).length ≤ Model.sizeSels sels
+  | [] => by simp [Model.spreadNamesSels, Model.sizeSels]
+  | s :: rest => by
+    have h1 := spreadNamesSel_le s
+    have h2 := spreadNamesSels_le rest
+    simp only [Model.spreadNamesSels, Model.sizeSels, List.length_append]; omega
+end
+
+theorem size_le_docSize {D : Document} {d : Definition} (hd : d ∈ D) : 1 + Model.sizeSet (Model.defSel d) ≤ Model.docSize D := by
+  unfold Model.docSize
+  induction D with
+  | nil => simp at hd
+  | cons x rest ih =>
+    simp only [List.mem_cons] at hd
+    simp only [List.map_cons, List.sum_cons]
+    rcases hd with rfl | hd
+    · omega
+    · have := ih hd; omega
+
+theorem frags_size_le (D : Document) :
+    ((Model.fragsOf D).map (fun f => (Model.spreadNamesSet f.sel).length)).sum ≤ Model.docSize D := by
+  unfold Model.fragsOf Model.docSize
+  induction D with
+  | nil => simp
+  | cons d rest ih =>
+    cases d with
+    | op kind name vars dirs sel =>
+      simp only [List.filterMap_cons, List.map_cons, List.sum_cons]
+      omega
+    | frag n np tc tcp dirs sel p =>
+      have := spreadNamesSet_le sel
+      simp only [List.filterMap_cons, List.map_cons, List.sum_cons]
+      simp only [Model.defSel] at ih ⊢
+      omega
+
+theorem pot_initial {D : Document} (hu : Spec.fragmentNamesUnique D = true) :
+    pot D ((Model.fragsOf D).map (·.name)) [] ≤ Model.docSize D := by
+  have hnd : Spec.nodup ((Model.fragsOf D).map (·.name)) = true := by
+    unfold Spec.fragmentNamesUnique at hu; rw [← fragsOf_names] at hu; exact hu
+  have : pot D ((Model.fragsOf D).map (·.name)) [] =
+      ((Model.fragsOf D).map (fun f => (Model.spreadNamesSet f.sel).length)).sum := by
+    unfold pot
+    have hfil : ((Model.fragsOf D).map (·.name)).filter (fun n => !([] : List String).contains n) =
+        (Model.fragsOf D).map (·.name) := by
+      apply List.filter_eq_self.2
+      intro a _; rfl
+    rw [hfil, List.map_map]
+    congr 1
+    apply List.map_congr_left
+    intro f hf
+    have h1 : Model.fragLast D f.name = some f := by
+      rw [fragLast_eq_first hu]
+      unfold Model.fragFirst
+      exact find?_of_unique (Model.fragsOf D) (·.name) f hf hnd
+    simp [wdeps, h1]
+  rw [this]
+  exact frags_size_le D
+
+/-- With the fuel of the pipeline every operation's worklist comes back. -/
+theorem operation_worklist_total {S : Schema} {D : Document} (hu : Spec.fragmentNamesUnique D = true)
+    {kind : Option (OpKind × Pos)} {name : Option (String × Pos)} {vars : List VarDef} {dirs : List Directive}
+    {sel : SelSet} (hd : Definition.op kind name vars dirs sel ∈ D) :
+    ∃ errs, validateVariablesOp S D (Model.fuelFor D) kind vars dirs sel = (errs, false) := by
+  have hnd : Spec.nodup ((Model.fragsOf D).map (·.name)) = true := by
+    unfold Spec.fragmentNamesUnique at hu; rw [← fragsOf_names] at hu; exact hu
+  unfold validateVariablesOp
+  simp only
+  have hstart : (varsDirectives S vars dirs ++ varsSet S vars (Model.opScope S kind) sel).spreads.length ≤ Model.docSize D := by
+    simp only [VarAcc.spreads_append, varsDirectives_spreads, varsSet_spreads, List.nil_append]
+    have h1 := spreadNamesSet_le sel
+    have h2 := size_le_docSize hd
+    simp only [Model.defSel] at h2
+    omega
+  obtain ⟨acc', hacc⟩ := varsFragments_total S D vars ((Model.fragsOf D).map (·.name)) hnd (fun _ => Iff.rfl)
+    (Model.fuelFor D) (varsDirectives S vars dirs ++ varsSet S vars (Model.opScope S kind) sel).spreads []
+    { varsDirectives S vars dirs ++ varsSet S vars (Model.opScope S kind) sel with spreads := [] } (by
+      have := pot_initial hu
+      unfold Model.fuelFor
+      omega)
+  rw [hacc]
+  exact ⟨_, rfl⟩
+
+theorem validateVariablesDefs_total {S : Schema} {D : Document} (hu : Spec.fragmentNamesUnique D = true) :
+    ∀ (ds : List Definition), (∀ d ∈ ds, d ∈ D) →
+      ∃ errs, validateVariablesDefs S D (Model.fuelFor D) ds = (errs, false)
+  | [], _ => ⟨[], rfl⟩
+  | .frag n np tc tcp dirs sel p :: rest, hm => by
+    simp only [validateVariablesDefs]
+    exact validateVariablesDefs_total hu rest (fun d hd => hm d (by simp [hd]))
+  | .op kind name vars dirs sel :: rest, hm => by
+    obtain ⟨e, he⟩ := operation_worklist_total (S := S) hu (name := name) (hm _ (List.mem_cons_self ..))
+    obtain ⟨r, hr⟩ := validateVariablesDefs_total (S := S) hu rest (fun d hd => hm d (by simp [hd]))
+    simp only [validateVariablesDefs, he, hr]
+    exact ⟨e ++ r, rfl⟩
+
 end ApiFu.C04
